@@ -13,3 +13,18 @@ package slices
 //@ props C02
 //@ ensures result == exists(i, 0, len(s), s[i] == v)
 //@ loop 1 invariant forall(i, 0, rangeindex+1, s[i] != v)
+
+//@ func IndexIsser
+//@ props C12
+//@ modifies nothing
+//@ ensures -1 <= result && result < len(s)
+
+//@ func ContainsIsser
+//@ props C12
+//@ modifies nothing
+
+//@ func Delete
+//@ props C12
+//@ requires 0 <= i && i < len(s)
+//@ modifies elems(s)
+//@ ensures len(result) == len(s) - 1
